@@ -12,7 +12,7 @@ def optNatList (j : Json) (k : String) : Except String (Option (List Nat)) :=
 
 def layerInfoOfJson (j : Json) : Except String LayerInfo := do
   pure { inShape := ← getNatList j "in", outShape := ← getNatList j "out", wShape := ← getNatList j "w",
-         poolSize := ← optNatList j "pool" }
+         poolSize := ← optNatList j "pool", groups := ← getNat j "groups" }
 
 def optNatToJson : Option Nat → Json
   | none => Json.null
@@ -74,6 +74,7 @@ def elayerOfJson (j : Json) : Except String ELayer := do
          bias := ← optField j "bias" natRatPair,
          multiplier := ← optField j "multiplier" opUnitOfJson,
          accumulator := ← optField j "accumulator" qinfoOfJson,
+         poolAccumulator := ← optField j "pool_accumulator" qinfoOfJson,
          bnDivider := ← optField j "bn_div" opUnitOfJson,
          bnMultiplier := ← optField j "bn_mul" opUnitOfJson }
 
